@@ -1144,6 +1144,19 @@ fn oracle_c08(env: &Env, op: &Op, res: &Applied, before: &View, after: &View, le
             }
         }
     }
+    // activation: a sector whose deal list names one deal twice must not be activated (the deal
+    // would be activated twice within the call, whatever the position of the repeat)
+    if let (Op::Activate { sectors, .. }, true) = (op, res.ok()) {
+        if let Some(ret) = res.ret.clone().and_then(|b| b.deserialize::<BatchActivateDealsResult>().ok()) {
+            let codes = ret.activation_results.codes();
+            for (i, sct) in sectors.iter().enumerate() {
+                let distinct: BTreeSet<u64> = sct.2.iter().cloned().collect();
+                if codes.get(i).map(|c| c.is_success()).unwrap_or(false) && distinct.len() != sct.2.len() {
+                    return viol("deal-activated-twice-in-one-call", format!("sector {} activated with deal list {:?}", sct.0, sct.2));
+                }
+            }
+        }
+    }
     // activation: a deal state appears at most once, only through the provider's activation call
     for (id, d) in &after.deals {
         let was = before.deals.get(id).and_then(|b| b.state);
